@@ -336,6 +336,19 @@ func (g *gen) genCert() cfgCase {
 		}
 		return nil
 	}
+	// position of some certificate-group-map rule of the block (-1 = none); other sub-commands are not touched
+	cgmRule := func(wb *block) int {
+		var idx []int
+		for j, s := range wb.Subs {
+			if sw := strings.Fields(s); len(sw) == 4 && sw[0] == "certificate-group-map" {
+				idx = append(idx, j)
+			}
+		}
+		if len(idx) == 0 {
+			return -1
+		}
+		return idx[r.Intn(len(idx))]
+	}
 	for i, nm := 0, r.Intn(6); i < nm; i++ {
 		switch k := r.Intn(100); {
 		case k < 10:
@@ -410,8 +423,7 @@ func (g *gen) genCert() cfgCase {
 			}
 		case k < 62:
 			if wb := webBlock(); wb != nil {
-				if len(wb.Subs) > 0 && r.Chance(70) {
-					j := r.Intn(len(wb.Subs))
+				if j := cgmRule(wb); j >= 0 && r.Chance(70) {
 					wb.Subs = append(wb.Subs[:j:j], wb.Subs[j+1:]...)
 					say("certificate-group-map-rule-missing")
 				} else {
@@ -420,8 +432,8 @@ func (g *gen) genCert() cfgCase {
 				}
 			}
 		case k < 68:
-			if wb := webBlock(); wb != nil && len(wb.Subs) > 0 {
-				j := r.Intn(len(wb.Subs))
+			if wb := webBlock(); wb != nil && cgmRule(wb) >= 0 {
+				j := cgmRule(wb)
 				sw := strings.Fields(wb.Subs[j])
 				if r.Chance(50) {
 					sw[2] = fmt.Sprint(5 + r.Intn(40))
@@ -437,8 +449,8 @@ func (g *gen) genCert() cfgCase {
 			}
 		case k < 76:
 			// the webvpn rule uses a copy of the certificate map of the tunnel-group-map rule
-			if wb := webBlock(); wb != nil && len(wb.Subs) > 0 {
-				j := r.Intn(len(wb.Subs))
+			if wb := webBlock(); wb != nil && cgmRule(wb) >= 0 {
+				j := cgmRule(wb)
 				sw := strings.Fields(wb.Subs[j])
 				o := ref{"certmap", sw[1]}
 				n := baseName(strings.TrimPrefix(o.name, "old-")) + fmt.Sprintf("-DRC-%d", 7+r.Intn(2))
